@@ -172,11 +172,22 @@ def mirror_models(models):
     return [(t, gid, flip[s], mir_list(ex)) for t, gid, s, ex in models]
 
 
+# loci used by the mirrored assignment only: an isoform that ends well inside the span of another one, so that a read of the
+# longer one overruns the shorter one's end (left / right overhang terms of the candidate selection)
+EXTRA_LOCI = {
+    "overrun": [("T0", "G1", "-", [(1000, 1134), (2330, 2629), (4579, 4869)]),
+                ("T1", "G1", "-", [(1000, 1149), (2159, 2234), (3618, 3689), (3770, 3854), (4020, 4179), (4329, 4429)])],
+    "overrun_left": [("T0", "G1", "+", [(1000, 1290), (3240, 3539), (4735, 4869)]),
+                     ("T1", "G1", "+", [(1440, 1540), (1690, 1849), (2015, 2099), (2180, 2251), (3635, 3710), (4720, 4869)])],
+}
+ALL_LOCI = dict(LOCI, **EXTRA_LOCI)
+
+
 def h_assign_mirror(locus, tid, i, j, preset, shape):
     def fn(g):
         params = readfam.matching_params(preset)
-        gi = build_locus(locus, params.delta)
-        gim = build_locus(locus, params.delta, mirror_models(LOCI[locus]))
+        gi = build_locus(locus, params.delta, ALL_LOCI[locus])
+        gim = build_locus(locus, params.delta, mirror_models(ALL_LOCI[locus]))
         exons = gi.all_isoforms_exons[tid]
         slack = 0
         read = positive_read(g, exons, i, j, params.delta)
@@ -186,6 +197,8 @@ def h_assign_mirror(locus, tid, i, j, preset, shape):
         elif shape == "elongated_right":
             e = g.int("right_elongation", 30, 320)
             read = read[:-1] + [(read[-1][0], exons[-1][1] + e)]
+        elif shape == "drop_inner":
+            read = [read[0]] + read[2:]
         elif shape == "shifted_site":
             e = g.int("site_shift", 7, 70)
             if len(read) > 1:
@@ -352,6 +365,11 @@ def instances(tier, seed):
                         continue
                     out.append(Instance("mirror_assign[%s,%s,%s,%s]" % (locus, tid, shape, preset), h_assign_mirror(locus, tid, 0, n - 1, preset, shape), F,
                                         "locus %s and its mirror image, read %s %s" % (locus, shape, tid), weight=40 * n, budget_s=1500))
+    for locus in sorted(EXTRA_LOCI):
+        for preset in (["default"] if q else ["precise", "default", "loose"]):
+            out.append(Instance("mirror_assign[%s,T0,drop_inner,%s]" % (locus, preset), h_assign_mirror(locus, "T0", 0, 2, preset, "drop_inner"), F,
+                                "locus %s and its mirror image, read of T0 without its inner exon (overruns the other isoform's end)" % locus,
+                                weight=120, budget_s=1500))
     for a, b in ([(2, 2)] if q else [(2, 2), (3, 2), (3, 3)]):
         out.append(Instance("translate[%d,%d]" % (a, b), h_translate(a, b), ["src.common:merge_ranges", "src.common:sum_intervals_to_point",
                                                                             "src.common:interval_bin_search", "src.common:junctions_from_blocks"],
